@@ -50,57 +50,125 @@ def check_form(ctx, cls="GPO"):
     return st
 
 
+FAMILIES = ("T_HOO", "HCT", "VHCT")
+ALGO_NAME = ("self.algo.__name__", "self.algo.__qualname__")
+
+
+_MODEL = [None]
+
+
+def name_test(csrc):
+    """A path condition that tests the base algorithm's name (or class): returns f(family) -> bool, else None."""
+    try:
+        e = ast.parse(csrc, mode="eval").body
+    except SyntaxError:
+        return None
+    if isinstance(e, ast.Call) and norm_src(e.func) == "issubclass" and len(e.args) == 2 and norm_src(e.args[0]) == "self.algo" and _MODEL[0]:
+        bases = [x.id for x in (e.args[1].elts if isinstance(e.args[1], (ast.Tuple, ast.List)) else [e.args[1]]) if isinstance(x, ast.Name)]
+        model = _MODEL[0]
+
+        def sub(fam, bases=bases):
+            if fam not in model.classes:
+                return False
+            mro = [c2.name for c2 in model.mro(fam)]
+            return any(b in mro for b in bases)
+        return sub
+    if isinstance(e, ast.Compare) and len(e.ops) == 1 and isinstance(e.ops[0], (ast.Is, ast.Eq)) and \
+            {norm_src(e.left), norm_src(e.comparators[0])} & {"self.algo"}:
+        other = e.comparators[0] if norm_src(e.left) == "self.algo" else e.left
+        if isinstance(other, ast.Name):
+            return lambda fam, v=other.id: fam == v
+    if isinstance(e, ast.Compare) and len(e.ops) == 1:
+        l, r, op = e.left, e.comparators[0], e.ops[0]
+        if isinstance(op, ast.Eq):
+            for a, b in ((l, r), (r, l)):
+                if norm_src(a) in ALGO_NAME and isinstance(b, ast.Constant) and isinstance(b.value, str):
+                    return lambda fam, v=b.value: fam == v
+        if isinstance(op, ast.In) and norm_src(l) in ALGO_NAME and isinstance(r, (ast.Tuple, ast.List, ast.Set)) and \
+                all(isinstance(x, ast.Constant) and isinstance(x.value, str) for x in r.elts):
+            return lambda fam, vs=tuple(x.value for x in r.elts): fam in vs
+    return None
+
+
 def check_learner_construction(ctx, cls, rule):
-    """rho grid and constructor arguments of every base learner."""
+    """rho grid and constructor arguments of every base learner, decided path by path on pull (aliases, keyword dictionaries
+    and temporaries expanded): for each supported family, on every path consistent with `algo.__name__ == family` that starts
+    a learner, the constructor call is self.algo(nu=numax, rho=rhomax^(2N/(2i+1)), domain, partition[, rounds for T_HOO])."""
     model = ctx.model
     c = model.cls(cls)
     pull = model.own_method(cls, "pull")
     q = "%s.pull" % cls
     ctx.fn(q)
-    # rho = rhomax ** (2N / (2 phase + 1))
-    rs = [s for s in ast.walk(pull) if isinstance(s, ast.Assign) and norm_src(s.targets[0]) == "rho"]
-    ok = False
-    if len(rs) == 1:
-        T = SX.Translator(positive=True)
-        T.attr_cb = lambda e: T.sym(e.attr) if is_self_attr(e) else None
-        got = T.tr(rs[0].value)
-        ref = T.sym("rhomax") ** (2 * T.sym("N") / (2 * T.sym("phase") + 1))
-        ok = SX.equivalent(got, ref)[0] is True
-    ctx.ob(rule, ok, c.file, q, "rho_i = rhomax^(2N/(2i+1))", norm_src(rs[0].value) if rs else "no rho", pull.lineno)
-    ctors = [x for x in ast.walk(pull) if isinstance(x, ast.Call) and norm_src(x.func) == "self.algo"]
-    if not ctors:
+    _MODEL[0] = model
+    fn, params, paths, fns = CR.method_paths(model, cls, "pull", nomerge=True)
+    T = SX.Translator(positive=True)
+    T.attr_cb = lambda e: T.sym(e.attr) if is_self_attr(e) else None
+    ref_rho = T.sym("rhomax") ** (2 * T.sym("N") / (2 * T.sym("phase") + 1))
+
+    def ctor_writes(p):
+        return [w for w in p.writes if w[0] == "self.curr_algo" and w[2] and w[2].startswith("self.algo(")]
+    if not any(ctor_writes(p) for p in paths):
         raise AnalysisError("%s.pull never constructs a learner (anchor vanished)" % cls)
-    for x in ctors:
-        if any(k.arg is None for k in x.keywords) or any(isinstance(a, ast.Starred) for a in x.args):
-            ctx.violation(rule, c.file, q, norm_src(x),
-                          "learner constructed with **/* arguments: that every family receives nu=nu_max, rho=rho_i and the caller's "
-                          "domain/partition cannot be established from the call (obligation not discharged)", x.lineno)
-    for x in ctors:
-        if any(k.arg is None for k in x.keywords):
-            continue
-        kw = {k.arg: norm_src(k.value) for k in x.keywords}
-        # which learner family this branch serves
-        g = model.up(model.up(x))
-        fam = norm_src(g.test) if isinstance(g, ast.If) else ""
-        want = {"nu": "self.numax", "rho": "rho", "domain": "self.domain", "partition": "self.partition"}
-        if 'T_HOO' in fam:
-            want["rounds"] = "self.rounds"
-        ok = kw == want and not x.args
-        ctx.ob(rule, ok, c.file, q, norm_src(x)[:100], "learner built with (nu_max, rho_i) and the caller's domain/partition" if ok else
-               "constructor arguments %s, expected %s" % (kw, want), x.lineno)
-        asg = model.up(x)
-        ctx.ob(rule, isinstance(asg, ast.Assign) and norm_src(asg.targets[0]) == "self.curr_algo", c.file, q, "self.curr_algo = self.algo(...)",
-               "new learner becomes the current learner", x.lineno, nontrivial=False)
-    # every supported family has a constructor branch
-    fams = set()
-    for x in ctors:
-        g = model.up(model.up(x))
-        if isinstance(g, ast.If):
-            for nm in ("T_HOO", "HCT", "VHCT"):
-                if '"%s"' % nm in norm_src(g.test) or "'%s'" % nm in norm_src(g.test):
-                    fams.add(nm)
-    ctx.ob(rule, fams == {"T_HOO", "HCT", "VHCT"}, c.file, q, "constructor branch for each supported learner", "%s" % sorted(fams), pull.lineno)
-    return ctors
+
+    def consistent(p, fam):
+        for csrc, pol in p.conds:
+            t = name_test(csrc)
+            if t is not None and t(fam) != pol:
+                return False
+        return True
+
+    def prefix(p):
+        out = []
+        for csrc, pol in p.conds:
+            if name_test(csrc) is not None:
+                break
+            out.append((csrc, pol))
+        return tuple(out)
+    creating_prefixes = {prefix(p) for p in paths if ctor_writes(p)}
+    rho_ok = True
+    rho_seen = set()
+    covered = set()
+    for fam in FAMILIES:
+        cons = [p for p in paths if consistent(p, fam)]
+        for p in cons:
+            cw = ctor_writes(p)
+            if not cw:
+                if prefix(p) in creating_prefixes:
+                    ctx.violation(rule, c.file, q, "constructor branch for each supported learner",
+                                  "no learner is built for base algorithm %s on the path [%s] although other families start one there: the "
+                                  "learner slot stays empty or stale" % (fam, " and ".join("%s%s" % ("" if pol else "not ", x) for x, pol in prefix(p))),
+                                  pull.lineno)
+                continue
+            covered.add(fam)
+            if len(cw) != 1:
+                ctx.violation(rule, c.file, q, "learner construction (%s)" % fam, "%d constructor calls on one path" % len(cw), pull.lineno)
+                continue
+            call = ast.parse(cw[0][2], mode="eval").body
+            if call.args or any(k.arg is None for k in call.keywords):
+                ctx.violation(rule, c.file, q, cw[0][2][:100],
+                              "learner constructed with positional / ** arguments that cannot be resolved: that every family receives nu=nu_max, "
+                              "rho=rho_i and the caller's domain/partition cannot be established (obligation not discharged)", pull.lineno)
+                continue
+            kw = {k.arg: k.value for k in call.keywords}
+            want = {"nu": "self.numax", "domain": "self.domain", "partition": "self.partition"}
+            if fam == "T_HOO":
+                want["rounds"] = "self.rounds"
+            okk = set(kw) == set(want) | {"rho"} and all(norm_src(kw[a]) == v for a, v in want.items())
+            okr = False
+            if "rho" in kw:
+                try:
+                    okr = SX.equivalent(T.tr(kw["rho"]), ref_rho)[0] is True
+                except SX.Untranslatable:
+                    okr = False
+                rho_seen.add(norm_src(kw["rho"]))
+            rho_ok &= okr
+            ctx.ob(rule, okk, c.file, q, "%s: %s" % (fam, cw[0][2][:100]), "learner built with (nu_max, rho_i) and the caller's domain/partition" if okk else
+                   "constructor arguments %s, expected %s + rho" % ({a: norm_src(v) for a, v in kw.items()}, want), pull.lineno)
+    ctx.ob(rule, rho_ok and bool(rho_seen), c.file, q, "rho_i = rhomax^(2N/(2i+1))", "%s" % sorted(rho_seen) if rho_seen else "no rho", pull.lineno)
+    ctx.ob(rule, covered == set(FAMILIES), c.file, q, "constructor branch for each supported learner", "%s" % sorted(covered), pull.lineno)
+    for f in fns:
+        ctx.fn(f)
+    return [x for x in ast.walk(pull) if isinstance(x, ast.Call) and norm_src(x.func) == "self.algo"]
 
 
 def check_create_guard(ctx):
